@@ -69,7 +69,7 @@ def cuts_for(label, text, tier):
         if tier == 'thorough':
             c |= {n - 1, n // 4}
     elif label == 'conv':
-        c = {1, n // 2, n - 1}
+        c = {1, n // 2, n - 8}           # (the last cut is inside the last rule: a lone missing newline changes nothing)
         if tier == 'thorough':
             c |= {n * i // 8 for i in range(1, 8)}
     elif label in ('v1', 'v2'):
@@ -326,6 +326,7 @@ Definition csv_report (O : oracle) (c : cmd) (f0 : fs) (c0 : string) : list stri
           show_bool (no_loss f0 f2)] in
   line ["ops"; join ";" (map show_eff ops)] ::
   line ["init"; show_fs f0; show_inforce (resolve O f0 cd)] ::
+  row "full" 0 0 (rerun O c f0 b) "-" ::
   flat_map (fun kn => let '(k, n) := kn in
     row "crash" k n (crash ops k n f0) "-" ::
     (if Nat.ltb k (length ops)
@@ -347,6 +348,7 @@ Definition layout_report (O : oracle) (f0 : fs) (r0 : string) : list string :=
           show_bool (no_loss f0 f2)] in
   line ["ops"; join ";" (map show_eff ops)] ::
   line ["init"; show_fs f0; show_lres (resolve_layout O f0)] ::
+  row "full" 0 0 (update_rerun O f0) ::
   flat_map (fun kn => let '(k, n) := kn in
     row "crash" k n (crash ops k n f0) ::
     (if Nat.ltb k (length ops) then [row "fault" k n (crash ops k n f0)] else [])) (scen ops).
@@ -534,8 +536,11 @@ def direct_oracle(info, res):
                 continue
             if not (rules_user(info, o1) or rules_user(info, o2)):
                 bad.append((i, 'not-users-rules-even-after-rerun', None, signature(info, sc, 'rules', None)))
-            elif (empty_in_force(o1) and user_rules_on_disk(info, t1)) or (empty_in_force(o2) and user_rules_on_disk(info, t2)):
+            elif empty_in_force(o1) and user_rules_on_disk(info, t1):
                 bad.append((i, 'empty-rule-set-while-rules-on-disk', None, signature(info, sc, 'stranded', None)))
+            elif empty_in_force(o2) and user_rules_on_disk(info, t2):
+                bad.append((i, 'empty-rule-set-while-rules-on-disk-after-rerun', None,
+                            signature(info, dict(sc, tree=t2, mode='rerun'), 'stranded', None)))
             elif sc['mode'] == 'fault' and info['shape']['cmd'] == 'up' and info.get('ref_cls') is not None \
                     and sc['first'].get('inrun') is not None and sc['first']['inrun'] != info['ref_cls'] \
                     and user_rules_on_disk(info, t1):
@@ -618,7 +623,7 @@ def compare(info, res, model):
     seen = set()
     for sc in scs:
         if sc['mode'] == 'trace':
-            key = ('crash', len(model['ops']), 0)
+            key = ('full', 0, 0)
         else:
             e = tr['trace'][sc['k']] if sc['k'] < len(tr['trace']) else None
             n_tok = 0
@@ -648,11 +653,14 @@ def compare(info, res, model):
         if not resolve_matches(expect_resolve(tok, r2, layout), sc['rerun']['observe'], sc['rerun']['tree'], layout):
             mism.append({'what': 'resolve_rules after re-running differs', 'scenario': sc_id(sc), 'model': r2,
                          'real': strip_obs(sc['rerun']['observe'])})
-        if inrun != '-' and info.get('ref_cls') is not None and sc['first'].get('inrun') is not None and info['precondition']:
+        if inrun != '-' and info.get('ref_cls') is not None and sc['first'].get('inrun') is not None and info['precondition'] \
+                and info['user_nrules']:
             want_user = inrun.startswith('C:') and tok.interp(inrun[2:]) == info['c0']
             if want_user != (sc['first']['inrun'] == info['ref_cls']):
                 mism.append({'what': 'rules used by the failed run differ', 'scenario': sc_id(sc), 'model': inrun,
                              'real': sc['first']['inrun']})
+    if not model['ops']:
+        seen.add(('crash', 0, 0))      # a command that does not migrate has no interruption points
     missing = [list(k) for k in model['rows'] if k not in seen]
     if missing:
         mism.append({'what': 'model scenarios never materialised', 'keys': missing[:10], 'n': len(missing)})
@@ -674,7 +682,7 @@ def verdict_bits(info, res, model, bad):
         badset.setdefault(i, set()).add('lost' if clause == 'lost' else 'rules')
     for i, sc in enumerate(res['scenarios']):
         if sc['mode'] == 'trace':
-            key = ('crash', len(model['ops']), 0)
+            key = ('full', 0, 0)
         else:
             e = tr['trace'][sc['k']] if sc['k'] < len(tr['trace']) else None
             n_tok = 0
@@ -748,7 +756,10 @@ def finish_info(info, res, refs):
         info['ref_cls'] = up.get('classification') if up.get('exit') == 0 else None
         # the budget classifies with the user's CSV before the migration (or has no settings yet: init)
         i0 = res['initial']
-        info['precondition'] = sh['settings'] == 'absent' or ('error' not in i0 and i0.get('format') == 'csv')
+        if sh['settings'] == 'absent':
+            info['precondition'] = sh['cmd'] == 'init' and not sh['rules'] and sh['csv_has_rules']
+        else:
+            info['precondition'] = 'error' not in i0 and i0.get('format') == 'csv'
     return info
 
 
